@@ -94,6 +94,15 @@ func (c03) Build(tier string, seed uint64) []any {
 		}
 		cs = append(cs, &imgCase{Gen: "long", W: 40000, H: 2, C: 3, P: p, Class: "const", CSeed: 5})
 	}
+	for j, g := range areaSizes(th, seed) {
+		for k, p := range []int{8, 12, 16} {
+			if !th && (j+k+int(seed))%2 == 0 {
+				continue
+			}
+			r := gen.Sub(seed, "C03", "area", j*10+k)
+			cs = append(cs, &imgCase{Gen: "area", W: g[0], H: g[1], C: gen.Pick(r, 1, 3), P: p, Class: gen.Pick(r, "noise", "smooth", "runs", "lowent"), CSeed: r.U64()})
+		}
+	}
 	return cs
 }
 
@@ -207,6 +216,15 @@ func (c07) Build(tier string, seed uint64) []any {
 				}
 				cs = append(cs, &imgCase{Gen: "cell", W: w, H: h, C: c, P: p, Sel: near, Class: cl, Aux: aux, CSeed: r.U64()})
 			}
+		}
+	}
+	for j, g := range areaSizes(th, seed) {
+		for k, pn := range [][2]int{{8, 1}, {8, 3}, {12, 2}, {16, 1}, {16, 255}} {
+			if !th && (j+k+int(seed))%2 == 0 {
+				continue
+			}
+			r := gen.Sub(seed, "C07", "area", j*10+k)
+			cs = append(cs, &imgCase{Gen: "area", W: g[0], H: g[1], C: gen.Pick(r, 1, 3), P: pn[0], Sel: pn[1], Class: gen.Pick(r, "noise", "smooth", "edges", "runs"), Aux: pn[1], CSeed: r.U64()})
 		}
 	}
 	return cs
